@@ -95,31 +95,35 @@ def cfg_term(scn, nm: Names) -> str:
     return q.crecord(
         c_insts=q.clist(insts), c_points=q.clist(q.cz(p) for p in points),
         c_runahead=q.cnat(scn["runahead"]), c_qlimits=q.clist(q.cnat(x) for x in qlimits),
-        c_icp=q.cz(scn["icp"]), c_fcp=q.cz(scn["fcp"]))
+        c_icp=q.cz(scn["icp"]), c_fcp=q.cz(scn["fcp"]), c_start=q.cz(scn.get("startcp", scn["icp"])))
 
 
-def sat_keys(view, icp):
-    """satisfied, non-pre-initial keys of a task view"""
+def sat_keys(view, icp, start=None):
+    """satisfied keys of a task view that are not satisfied a priori (pre-initial, or upstream of the
+    start point of a warm start for an instance at or after it)"""
     out = []
+    p = view["id"][0]
     for pre in view["prereqs"]:
         for k, v in pre:
-            if v and k[0] >= icp and k not in out:
+            apriori = k[0] < icp or (start is not None and k[0] < start <= p and k[0] != p)
+            if v and not apriori and k not in out:
                 out.append(k)
     return out
 
 
-def tview(v, nm: Names, icp) -> str:
+def tview(v, nm: Names, icp, start=None) -> str:
     return q.crecord(
         v_id=nm.tid(v["id"]), v_status=STATUS[v["status"]], v_held=q.cbool(v["held"]),
         v_queued=q.cbool(v["queued"]), v_runahead=q.cbool(v["runahead"]),
         v_flows=q.clist(q.cnat(f) for f in v["flows"]),
-        v_sat=q.clist(nm.key(k) for k in sat_keys(v, icp)),
+        v_sat=q.clist(nm.key(k) for k in sat_keys(v, icp, start)),
         v_outs=q.clist(nm.out(o) for o in v["outputs"]),
         v_sn=q.cnat(v["submit_num"]))
 
 
 def events(scn, trace, nm: Names) -> list[str]:
     icp = scn["icp"]
+    start = scn.get("startcp")
     out = []
     building = None      # id of the proxy under construction inside spawn_task
     tracked = set()      # python ids of proxies returned by spawn_task (pool candidates);
@@ -149,7 +153,7 @@ def events(scn, trace, nm: Names) -> list[str]:
             continue
         if loading and k == "add":
             tracked.add(e["t"]["obj"])
-            out.append(f"ERestore {tview(e['t'], nm, icp)}")
+            out.append(f"ERestore {tview(e['t'], nm, icp, start)}")
             continue
         if k == "spawn":
             tracked.add(e["t"]["obj"])
@@ -165,7 +169,7 @@ def events(scn, trace, nm: Names) -> list[str]:
         if k == "spawn":
             t = e["t"]
             out.append(f"ESpawn {nm.tid(t['id'])} {q.clist(q.cnat(f) for f in t['flows'])} "
-                       f"{q.clist(nm.key(x) for x in sat_keys(t, icp))} {q.cbool(t['held'])}")
+                       f"{q.clist(nm.key(x) for x in sat_keys(t, icp, start))} {q.cbool(t['held'])}")
         elif k == "add":
             out.append(f"EAdd {nm.tid(e['t']['id'])}")
         elif k == "sat":
@@ -198,7 +202,7 @@ def events(scn, trace, nm: Names) -> list[str]:
             out.append(f"EMerge {nm.tid(e['id'])} {q.clist(q.cnat(f) for f in e['flows'])}")
         elif k in ("tick_end", "started", "restarted"):
             sn = e["snap"]
-            out.append(f"ETickEnd {q.clist(tview(v, nm, icp) for v in sn['tasks'])} "
+            out.append(f"ETickEnd {q.clist(tview(v, nm, icp, start) for v in sn['tasks'])} "
                        f"{q.clist(nm.tid(i) for i in sn['to_hold'])} {q.copt(sn['hold_point'], q.cz)}")
             if sn["stop_point"] is not None:
                 out.append(f"EParams {q.cz(sn['stop_point'])} {opt_tid(sn.get('stop_task'))}")
